@@ -47,9 +47,9 @@ class CharacterSet(IntEnum):
 
     @property
     def codec(self) -> str:
-        if self.name == "utf8mb4":
-            return "utf8"
-        return self.name
+        # MySQL's utf16/utf32 (and ucs2) are big endian without a byte order mark,
+        # unlike the Python codecs of the same name
+        return _PYTHON_CODECS.get(self.name, self.name)
 
     @property
     def default_collation(self) -> Collation:
@@ -60,6 +60,15 @@ class CharacterSet(IntEnum):
 
     def encode(self, s: str) -> bytes:
         return s.encode(self.codec)
+
+
+_PYTHON_CODECS = {
+    "utf8mb4": "utf8",
+    "ucs2": "utf-16-be",
+    "utf16": "utf-16-be",
+    "utf16le": "utf-16-le",
+    "utf32": "utf-32-be",
+}
 
 
 class Collation(IntEnum):
